@@ -68,13 +68,20 @@ def gen_case(rng, tier):
             prelude.append([A + [B[j]], B[:j] + B[j + 1:]])
         if rng.random() < 0.4:
             prelude.append([B, A])
-    return {
+    u8 = rng.random() < 0.08
+    if u8:
+        A, B = dgmgen.gen_u8_pair(rng, max_n)
+        prelude = []
+    case_ = {
         "inputs": {"dgm1": A, "dgm2": B, "rep1": dgmgen.representation(rng, A),
                    "rep2": dgmgen.representation(rng, B), "prelude": prelude},
         "config": {"set_order": "sim", "modes": [rng.choice(mc.ORDER_MODES) for _ in range(k)],
                    "plain_mode": rng.choice(mc.ORDER_MODES), "warn_filter": rng.choice(mc.WARN_FILTERS)},
         "ops": [],
     }
+    if u8:
+        case_["inputs"]["rep1"] = case_["inputs"]["rep2"] = "u8"
+    return case_
 
 
 def placeholder(P):
